@@ -64,6 +64,18 @@ CLAIMED["C17"] = dict(cat="exploration",
    text="Seeded simulation: generated collections of 0-6 index files (duplicates across packs and files, the same id under both types, empty packs, marked packs, packs listed normally and marked, boundary offsets/sizes), written by the simulator's own JSON writer and AEAD encoder, are loaded through the real rayon loader in all three modes (full, ids-only, trees-only) under seeded gate schedules that permute the arrival order of the index files, pool sizes 1-3; every listed id, its neighbours, pack ids, special and random ids are queried through the verif hooks and judged against a map model built from the generator's data; one load per position of a failing index read and one with a failing listing must return Err or a complete index.",
    ref="5 C17", note="Packs mixing blob types are outside the statement's domain: deviations there are counted, not flagged. The *_checked loaders are not covered.",
    tech="deterministic simulation: reference map model vs real parallel index loader under seeded arrival orders and read faults")
+CLAIMED["C06"] = dict(cat="exploration",
+   text="Seeded simulation of the chunk iterator (through the verif hook) over every accepted parameter set (rabin avg 2^0..2^20 with min/max at and around all boundaries, seeded irreducible polynomials; fixed sizes incl. primes) x streams (random, zeros, periodic, text, boundary-dense by solving for fingerprint zeros, targeted at min+-1 / min+63..65 / max-1) x reader behaviours (whole, 1-byte, capped, seeded short reads, Interrupted bursts, sticky hard error, size-hint variants): concatenation equals the stream, size bounds, identical chunk lists across reader behaviours, every cut below max at the first position whose non-rolling GF(2) reference fingerprint of the last 64 bytes has its masked bits zero, restart and suffix locality, Err exactly on a hard read error, no panic; a quarter of the runs also archive streams through Repository::archive and read the content ids back.",
+   ref="5 C06", note="Cut decisions at chunk lengths below 64 (no full window) and polynomials other than irreducible degree 53 are not judged. Built by a sub-agent, reviewed and integrated.",
+   tech="deterministic simulation of the Read seam (fragmentation, EINTR, errors) against an independent reference fingerprint")
+CLAIMED["C14"] = dict(cat="exploration",
+   text="Seeded simulation: snapshots (benign, and 20% hostile ones archived through a ReadSource with '..', absolute, separator-containing and symlink-then-entry names) are restored 10-12 times each into freshly built tmpfs sandboxes top/l1/l2/{outside,dest} with sentinel files, under all option combinations (delete, verify_existing, sparse, no_ownership, numeric_id, dry run first) and destination states (empty, identical, per-entry mutations incl. other type, symlinks into outside, fifos, hard links, edit scripts, unrelated trees, extras); everything outside dest must be unchanged whatever the outcome, a dry run changes nothing, on Ok every snapshot path has the snapshot's type/target/mode/mtime/owner and (under the statement's condition) bytes, extras are untouched without delete; panics and hangs are flagged.",
+   ref="5 C14", note="Real tmpfs, restore writers run in one FIFO-serial interleaving. Err is tolerated for hostile snapshots and for a conflicting entry of another type with delete off. Built by a sub-agent, reviewed and integrated.",
+   tech="deterministic simulation with planted destination states in a sentinel sandbox, reference-model comparison")
+CLAIMED["C18"] = dict(cat="exploration",
+   text="Seeded simulation of repository lives: init (real Repository::init or init_with_config for v1) with ConfigOptions drawn per field from unset/0/1/boundary+-1/interior/huge, then 1-4 apply_config calls through fresh handles, and after every accepted step a smoke run (backup of a model sized to the chunker parameters, read-back, check(read_data), sometimes restore to tmpfs, forget + prune with limits 0..u64::MAX % / sizes / extreme keep spans): no panic in any thread, no hang, a refused call performs no mutating store op and leaves every stored byte identical, an accepted change alters only the keys it names (stored config decrypted and diffed as plain JSON), no version downgrade, accepted configurations back up, check and restore correctly.",
+   ref="5 C18", note="Configuration sampling is the deciding dimension; the simulator contributes the op log, panic/hang detection across library threads and the independent config decoder. Built by a sub-agent, reviewed and integrated.",
+   tech="deterministic simulation: boundary-value configuration histories with op-log and independent config decoding oracles")
 NOT_YET = {}
 NA = {
  "C09": "pure function of its arguments (snapshot list, keep options, explicit 'now'): no schedule, clock read, I/O, fault or history for a simulator to own; see DESIGN.md section 6",
